@@ -55,8 +55,25 @@ TwiceExprs ==
 TwiceAux == AuxPool \cup { Un("and", S(a)), Un("not", S(a)), Bin("seq", Un("and", S(a)), Un("not", S(sp))),
                            Un("opt", Un("and", S(a))), Id("EOI") }
 
+\* user rules named like a non-keyword built-in (NEWLINE): the user's definition is what runs, so the validator
+\* must judge it by that definition and not by what the built-in of that name would do
+NL == Id("NEWLINE")
+ShadowBodies == { Un("and", S(a)), Un("opt", S(a)), Bin("alt", S(a), Id("EOI")), S(<<>>), S(a), Un("not", S(a)), Un("rep", S(a)) }
+ShadowExprs ==
+  { Un("rep", NL), Un("rep1", NL), MkUn("min0", NL), MkUn("min1", NL),
+    Un("rep", Bin("seq", NL, Un("opt", S(a)))), Un("rep", Bin("alt", NL, S(a))), Un("rep", Bin("seq", NL, NL)),
+    Bin("seq", Un("rep", Bin("seq", Un("not", NL), Id("ANY"))), NL),
+    Bin("alt", Bin("seq", NL, Id("m")), S(a)), Bin("seq", NL, Un("opt", Id("m"))),
+    Bin("alt", NL, S(a)), Bin("seq", S(a), Un("rep", NL)) }
+
 Grammars ==
-  CASE Slice = "twice" ->
+  CASE Slice = "shadow" ->
+         { [m |-> [ty |-> "", e |-> e], r1 |-> [ty |-> "", e |-> S(a)], NEWLINE |-> [ty |-> t, e |-> x]] :
+             e \in ShadowExprs, x \in ShadowBodies, t \in {"", "_"} }
+         \cup
+         { [m |-> [ty |-> "", e |-> Bin("seq", S(a), S(a))], r1 |-> [ty |-> "", e |-> S(a)], NEWLINE |-> [ty |-> "", e |-> x],
+            WHITESPACE |-> [ty |-> "_", e |-> w]] : x \in ShadowBodies, w \in { NL, Bin("alt", S(sp), NL), Bin("seq", NL, S(sp)) } }
+    [] Slice = "twice" ->
          { [m |-> [ty |-> "", e |-> e], r1 |-> [ty |-> "", e |-> x]] : e \in TwiceExprs, x \in TwiceAux }
          \cup
          { [m |-> [ty |-> "", e |-> Bin("seq", S(a), S(a))], r1 |-> [ty |-> "", e |-> x],
